@@ -67,6 +67,9 @@ type JVal struct {
 	Alias  string           `json:"alias,omitempty"` // slice sharing the backing array of an earlier slice param
 	Off    int              `json:"off,omitempty"`
 	Func   bool             `json:"func,omitempty"` // a callback: a function that does nothing and returns zero values
+	// an empty-interface (jq) value: the concrete type ("int", "string", "bool", "[]interface {}") and its value
+	AnyType string `json:"any_type,omitempty"`
+	Inner   *JVal  `json:"inner,omitempty"`
 }
 
 // Stub describes an abstract BitSource from the model: RLen and RBit.
@@ -956,6 +959,23 @@ func (b *builder) build(j *JVal, t reflect.Type) reflect.Value {
 		}
 		return p
 	case reflect.Interface:
+		if j.AnyType != "" {
+			var rt reflect.Type
+			switch j.AnyType {
+			case "int":
+				rt = reflect.TypeOf(int(0))
+			case "string":
+				rt = reflect.TypeOf("")
+			case "bool":
+				rt = reflect.TypeOf(false)
+			case "[]interface {}":
+				rt = reflect.TypeOf([]any(nil))
+			}
+			if rt != nil && rt.AssignableTo(t) {
+				v.Set(b.build(j.Inner, rt))
+				return v
+			}
+		}
 		if j.Nil {
 			return v
 		}
